@@ -800,6 +800,10 @@ func gen(r *hx.Rng, tier string, i int) []hx.Zs {
 		}
 		return raceSched(r)
 	}
+	if i%8 == 4 {
+		// two peers that cannot be told apart by address delete their own and each other's bindings
+		return stack.Twins(r, true)
+	}
 	return genSeq(r, tier)
 }
 
